@@ -696,6 +696,20 @@ def r19_5(ctx):
                     dec = decoded(f, a0) or (name in wrappers and isinstance(a0, ast.Name) and a0.id in f.params[1:])
                     ctx.check(dec, f.fq, short(x), where, "prints the ANSI-decoded line(s)", "redirected text is printed without being passed through the ANSI decoder: its styling is lost or shown as raw escapes")
     ctx.floor(n, 2, "console prints in FileProxy")
+    # every completed line is printed, also an empty one: the print in write() may depend on there BEING completed lines, never on
+    # the truthiness of the decoded text (a Text of zero length is falsy - print() of a blank line would vanish)
+    wf = c.method("write")
+    if wf is not None:
+        gw = cfgmod.build(wf.node)
+        from ..astutil import single_defs as _sdf195
+        sdw = _sdf195(wf.node)
+        derived = {k_ for k_, v_ in sdw.items() if any(isinstance(y, ast.Attribute) and y.attr in ("decode_line", "decode", "join") for y in ast.walk(v_))}
+        for nd in gw.stmt_nodes():
+            if nd.kind == "stmt" and nd.stmt is not None and any(isinstance(x, ast.Call) and norm(x.func).endswith(".print") for x in ast.walk(nd.stmt)):
+                for t_, v_ in gw.branch_facts(nd.id):
+                    names_ = {y.id for y in ast.walk(t_) if isinstance(y, ast.Name)}
+                    if names_ & derived:
+                        ctx.violation(wf.fq, short(nd.stmt), f"{wf.module.relpath}:{nd.lineno}", f"`{short(nd.stmt)}` runs only when `{norm(t_)}` is {'true' if v_ else 'false'}: the decoded text of a blank line is an empty (falsy) Text, so a print() that writes just a new line to the redirected stream prints nothing - blank lines are lost")
 
 
 def r19_6(ctx):
